@@ -27,7 +27,58 @@ fn draws<T>(f: impl FnOnce() -> T) -> (T, u64) {
     (r, vh::EXP_DRAWS.load(Ordering::SeqCst) - before)
 }
 
+/// first pair of positions (i < j) at which the same `w`-byte window occurs in `stream`
+pub fn repeated_window(stream: &[u8], w: usize) -> Option<(usize, usize)> {
+    let mut seen: std::collections::HashMap<&[u8], usize> = std::collections::HashMap::new();
+    if stream.len() < w {
+        return None;
+    }
+    for j in 0..=(stream.len() - w) {
+        if let Some(&i) = seen.get(&stream[j..j + w]) {
+            return Some((i, j));
+        }
+        seen.insert(&stream[j..j + w], j);
+    }
+    None
+}
+
+/// the RNG front-end itself under mixed request sizes (OS randomness, no tape): no 12-byte window of the
+/// concatenated output may occur twice (a statistical TEST with false-alarm probability < 2^-60)
+fn rng_stream_fresh(h: &mut Harness) {
+    use rand::RngCore;
+    let quick = h.tier == Tier::Quick;
+    let mut rng = strand::rnd::StrandRng;
+    for sizes in [&[30usize, 64, 4, 12, 7, 33, 1, 256][..], &[30][..], &[12][..], &[4, 8, 32, 64][..], &[1000, 100][..], &[3000, 5][..]] {
+        let mut stream: Vec<u8> = vec![];
+        let mut cuts = vec![];
+        let mut i = 0;
+        while stream.len() < (if quick { 40_000 } else { 400_000 }) {
+            let mut buf = vec![0u8; sizes[i % sizes.len()]];
+            match i % 3 {
+                0 => rng.fill_bytes(&mut buf),
+                1 => rng.try_fill_bytes(&mut buf).unwrap(),
+                _ => {
+                    if buf.len() == 4 { buf.copy_from_slice(&rng.next_u32().to_le_bytes()) } else if buf.len() == 8 { buf.copy_from_slice(&rng.next_u64().to_le_bytes()) } else { rng.fill_bytes(&mut buf) }
+                }
+            }
+            cuts.push(stream.len());
+            stream.extend(buf);
+            i += 1;
+        }
+        match repeated_window(&stream, 12) {
+            Some((a, bb)) => {
+                let req = |pos: usize| cuts.partition_point(|c| *c <= pos) - 1;
+                h.check(false, || format!("StrandRng hands out the same bytes twice: with request sizes {:?}, bytes {}..{} (request #{}) repeat bytes {}..{} (request #{})", sizes, bb, bb + 12, req(bb), a, a + 12, req(a)))
+            }
+            None => h.check(true, String::new),
+        }
+    }
+}
+
 pub fn run<C: NatCtx>(v: &mut Env<C>) {
+    if v.small && v.p == big(23) && C::kind() == 'B' {
+        rng_stream_fresh(&mut v.h);
+    }
     let quick = v.h.tier == Tier::Quick;
     let (p, q, g) = (v.p.clone(), v.q.clone(), v.g.clone());
     let ctx = v.ctx.clone();
